@@ -171,7 +171,10 @@ def run(ctx):
                         return n == n.upper() and EightDotThree.is_8dot3_conform(n, enc)
                     except Exception:  # noqa
                         return False
-                part = [n for n in part if alias_shaped(n)] + [n for n in part if not alias_shaped(n)]
+                # (among them the ones without blanks first: ' 2' passes the conformity test too, and its generated alias is '2' — thorough tier,
+                # seed 5: "create('2') failed: FEXP" after the directory ' 2' had been made)
+                part = [n for n in part if alias_shaped(n) and " " not in n] + [n for n in part if alias_shaped(n) and " " in n] + \
+                       [n for n in part if not alias_shaped(n)]
                 ops = [["makedir", "/D"]]
                 for j, n in enumerate(part):
                     p = "/D/" + n
